@@ -392,7 +392,8 @@ def t3(repo, res, canon, pc, logic):
                         if e.node is n:
                             must = path_must(logic, p, i)
                             plan = run.params[3]
-                            if Lit('empty(%s.tasks)' % plan, True) not in must:
+                            if Lit('empty(%s.tasks)' % plan, True) not in must and \
+                                    Lit('truthy(%s.tasks)' % plan, False) not in must:
                                 okf = False
         (res.ok if okf and nfin else res.bad)('C04.T3', run, None, '%s reports FINISHED only for an empty plan' % c.name,
                                               'ok' if okf and nfin else '%s can report the workflow FINISHED while tasks '
